@@ -55,6 +55,28 @@ Theorem {A}_sysop_is_weighted_sum : forall x y i,
   (G {A}_sysop y) x i = {A}_A x i.
 Proof. unfold {A}_A; vf. Qed.
 
+(* homogeneity (scale invariance): the step is linear in (u_n, v_n, a_n, bN, F) and the unknown -- multiplying them
+   all by s multiplies the right-hand side, the system row, the evaluation-point states and the returned state by s;
+   so s x solves the scaled system wherever x solves the original one, and the scaled step returns s times the state *)
+Local Notation GS f s y := (f I K C M dt beta gamma alpha (vscal s u_n) (vscal s v_n) (vscal s a_n) y (vscal s bN) (vscal s F)).
+Theorem {A}_step_homogeneous : forall s x i,
+  GS {A}_rhs s (vscal s x) i = s * G {A}_rhs x i /\
+  (GS {A}_sysop s (vscal s x)) (vscal s x) i = s * {A}_A x i /\
+  GS {A}_up_u s (vscal s x) i = s * G {A}_up_u x i /\
+  GS {A}_up_v s (vscal s x) i = s * G {A}_up_v x i /\
+  GS {A}_up_a s (vscal s x) i = s * G {A}_up_a x i /\
+  GS {A}_ev_ut s (vscal s x) i = s * G {A}_ev_ut x i /\
+  GS {A}_ev_vt s (vscal s x) i = s * G {A}_ev_vt x i /\
+  GS {A}_ev_at s (vscal s x) i = s * G {A}_ev_at x i.
+Proof. intros; unfold {A}_A; repeat split; vf. Qed.
+
+Theorem {A}_scaled_solution : forall s x i,
+  {A}_A x i = G {A}_rhs x i ->
+  (GS {A}_sysop s (vscal s x)) (vscal s x) i = GS {A}_rhs s (vscal s x) i.
+Proof.
+  intros s x i H. destruct ({A}_step_homogeneous s x i) as [E1 [E2 _]]. rewrite E1, E2, H. reflexivity.
+Qed.
+
 (* row i of the system minus row i of the right-hand side of _Solver_Apply_Neumann
    = residual of the equation of motion at dof i *)
 Theorem {A}_eom_identity : forall x i,
